@@ -22,7 +22,9 @@ def c13_cases(tier, seed):
             out += cs
         else:
             # 9 per family, spread over the grid (fixed switch points first, then every k-th of the rest)
-            pick = cs[:5] + cs[5::max(1, (len(cs) - 5) // 4)][:4]
+            sp = [c for c in cs if 'special' in c['tags']]
+            cs = [c for c in cs if 'special' not in c['tags']]
+            pick = cs[:5] + cs[5::max(1, (len(cs) - 5) // 4)][:4] + sp
             out += C.dedup(pick)
     return out
 
